@@ -132,6 +132,76 @@ def core_val(n):
 '''
 
 
+CORE_GEN = '''
+import datetime, re
+from bare_script import evaluate_expression
+from bare_script.runtime import BareScriptRuntimeError
+from bare_script.library import SCRIPT_FUNCTIONS
+
+NAME = {name!r}
+SPEC = {spec!r}
+CONC = {{'num': 1, 'str': 'a1', 'arr': [3, 1, 2, 'x'], 'obj': {{'a': 1, 'b': [2, 3]}}, 'dt': datetime.datetime(2024, 1, 2, 3, 4, 5, 6000), 'rx': re.compile('a'),
+        'fn': None, 'true': True}}
+
+
+def _spell(v, sp):
+    if isinstance(v, bool) or v is None or isinstance(v, str):
+        return v
+    if isinstance(v, int):
+        return v if sp == 'int' else float(v)
+    if isinstance(v, list):
+        return [_spell(x, sp) for x in v]
+    if isinstance(v, dict):
+        return dict((k, _spell(x, sp)) for k, x in v.items())
+    return v
+
+
+def _call(sp, i, i2):
+    def fn(args, options):
+        return _spell(2, sp)
+    args = []
+    for a in SPEC:
+        if a[0] == 'c':
+            args.append(fn if a[1] == 'fn' else _spell(CONC[a[1]], sp))
+        elif a[0] == 'i':
+            args.append(_spell(i, sp))
+        elif a[0] == 'i2':
+            args.append(_spell(i2, sp))
+        elif a[0] == 's':
+            args.append('a1')
+        elif a[0] == 'b':
+            args.append(True)
+        elif a[0] == 'arr_i':
+            args.append(_spell([i, 'x', i2], sp))
+        elif a[0] == 'obj_i':
+            args.append(_spell({{'a': i, 'b': 'x'}}, sp))
+    expr = {{'function': {{'name': NAME, 'args': [{{'variable': 'a' + str(k)}} for k in range(len(args))]}}}}
+    g = dict(('a' + str(k), v) for k, v in enumerate(args))
+    g[NAME] = SCRIPT_FUNCTIONS[NAME]
+    log = []
+    try:
+        r = ('ok', evaluate_expression(expr, {{'globals': g, 'debug': True, 'logFn': log.append, 'statementCount': 0}}, None, False))
+    except BareScriptRuntimeError as exc:
+        r = ('err', str(exc))
+    return r, [a for a in args if not callable(a)], len(log)
+
+
+def core_gen(n, n2):
+    i = i2 = 0
+    for j in range(-2, 6):
+        if n == j:
+            i = j
+        if n2 == j:
+            i2 = j
+    ri, rf = _call('int', i, i2), _call('float', i, i2)
+    if repr(ri[0][1]).startswith('<') and repr(rf[0][1]).startswith('<'):
+        ri, rf = (ri[0][0], ri[1], ri[2]), (rf[0][0], rf[1], rf[2])          # functions/regex objects: compare the rest
+    if ri != rf:
+        return False, {{'function': NAME, 'i': i, 'i2': i2, 'int_spelling': repr(ri)[:300], 'float_spelling': repr(rf)[:300]}}
+    return True, {{}}
+'''
+
+
 def plan(tier, seed, workdir):
     import bare_script.value as val
     p = Plan('C12', 'exploration')
@@ -162,6 +232,18 @@ def plan(tier, seed, workdir):
         body += hgen.harness('val', 'n: int', ['-3 <= n <= 6'], core_call='core_val(n)')
         path = hgen.write_module(workdir, f'c12_val_{i:02d}', body)
         hgen.ch_tasks(p, path, 'val', timeout, family='number as a value', expr=expr)
+    from . import c05
+    ngen = 0
+    for name, fi in sorted(info.items()):
+        if not fi['has_model'] or name in DEFAULTS or name in libinfo.EXCLUDE or name.startswith('schema') or name in ('systemFetch', 'dataParseCSV'):
+            continue
+        spec = c05.valid_for(fi['model'])
+        body = CORE_GEN.format(name=name, spec=spec)
+        body += hgen.harness('gen', 'n: int, n2: int', ['-2 <= n <= 5', '-2 <= n2 <= 5'], core_call='core_gen(n, n2)')
+        path = hgen.write_module(workdir, f'c12_gen_{name}', body)
+        hgen.ch_tasks(p, path, 'gen', timeout, est=15, family='every other library function, valid-kind arguments in both spellings', function=name)
+        ngen += 1
+    p.extra_coverage['generic_functions'] = ngen
     p.rule = ('one CrossHair condition per (library function, numeric parameter) and per value expression; symbolic integral n, both '
               'spellings compared (result, failure behaviour, post-call arguments, debug log count)')
     p.bounds = ['n in -2..8 by default; datetimeNew components and radix in wider per-parameter ranges (see samples)',
